@@ -298,6 +298,27 @@ def run(ctx):
                 res.violations.append(vlib.Violation("the twelve-witness scenario yields fewer than ten footnotes (%d)" % nfoot, inp, nofail=True))
             for pr in check_table(out):
                 res.violations.append(vlib.Violation("table not well-formed: " + pr, inp, observed=out[-1500:].decode("latin1")))
+        # every way of spelling a reference selection (the hidden, still supported --refgroup / --include-regexp /
+        # --exclude-regexp among them) and every spelling of the format options: stdout is one JSON document, nothing else
+        odd_cfg = [("refgroup.odd%pct.include", "refs/heads/w1"), ("refgroup.odd%pct.includeRegexp", "refs/tags/.*")]
+        for sel in (["--include=@odd%pct"], ["--refgroup=odd%pct"], ["--refgroup", "odd%pct"], ["--include-regexp=refs/heads/w[0-3]"],
+                    ["--exclude-regexp", "refs/tags/.*"], ["--include", "/refs/heads/w.*/"], ["--branches", "--no-tags"],
+                    ["--include-regexp=refs/.*", "--exclude-regexp=refs/heads/wm.*", "--refgroup=odd%pct"]):
+            for fmt in (["--json"], ["-j"], ["--json", "--json-version=2"], ["-j", "--json-version", "2"], ["-v"]):
+                rc, out, err, log = eng.run_fake(ws, worder, [], [], config=odd_cfg, extra_args=fmt + sel + ["--no-progress"])
+                res.case(("selection-spelling", tuple(sel), tuple(fmt)), True)
+                inp = {"scenario": "twelve rows citing twelve different objects", "config": odd_cfg, "args": fmt + sel}
+                if rc != 0:
+                    res.violations.append(vlib.Violation("run failed: %s" % err[:200].decode("latin1"), inp, expected="exit 0"))
+                    continue
+                if fmt[0] in ("--json", "-j"):
+                    try:
+                        json.loads(out.decode("utf-8"))
+                    except Exception as e:
+                        res.violations.append(vlib.Violation("stdout is not valid JSON: %s" % e, inp, observed=out[:300].decode("latin1")))
+                else:
+                    for pr in check_table(out):
+                        res.violations.append(vlib.Violation("table not well-formed: " + pr, inp, observed=out[:600].decode("latin1")))
         # very long REFERENCE names (legal in packed-refs, listed by for-each-ref in one line of that length): 5 000 ... 200 000 bytes
         for n in (5000, 65400, 65500, 70000, 200000):
             sc = S.Scenario()
